@@ -117,6 +117,7 @@ type Sim struct {
 	Pending  string        // label being applied (for retrying a run whose thread was lost)
 	wd       *time.Timer
 	fcloseAt int
+	advAfterClose int // clock travels after ForceClose
 }
 
 var errSend = errors.New("verif: send failed")
